@@ -112,7 +112,7 @@ def check_case(ctx, case, on_op=None):
         shared = sum(1 for m in hist["members"] if "Ref" in str(m)) + sum(1 for o in hist["ops"] if o["op"] == "compose")
         dg = S.digest(hist["members"], hist["points"])
         for idx, op in enumerate(hist["ops"]):
-            if not h.scope_ok(op, R, C.varfree_in_scope):
+            if not h.scope_ok(op, R, C.tree_in_scope):
                 ctx.count("ops_out_of_scope")
                 h.skip(op)
                 continue
